@@ -186,6 +186,28 @@ def oracle(ctx, hints, effort):
         if r is not None:
             findings.setdefault("passive:split:thin", Finding("passive:split:thin", f"splitting a 1 mm crust {splits} changes the result by {r[0]:.3g}",
                                                               {"scene": sc, "active": False, "splits": splits}, r[0], r[1]))
+    # hardly scattering layers at L band cut into ever thinner slices: a slice scatters as much per metre as the layer it came from
+    for it in range(1 if effort == "routine" else 4):
+        sc = scenes.random_scene(rng, nlayer=3, lossless=False, microstructure="exponential", atmosphere=False, substrate="flat", frequency=1.4e9)
+        sc["thickness"] = [round(float(v), 3) for v in rng.uniform(0.2, 0.6, 3)]
+        sc["micro"]["corr_length"] = [round(float(v), 7) for v in rng.uniform(1e-4, 3e-4, 3)]
+        sc["emmodel"], sc["nmax"] = "iba", 16
+        try:
+            base_ = run_model(sc, False)
+            k_ = int(np.argmax(np.asarray(base_.other_data["ks"].values, dtype=float) * np.asarray(sc["thickness"])))   # the layer that scatters most
+        except AssertionError:
+            continue
+        for frac in (0.5, 0.3, 0.1, 0.03, 0.01, 0.003):
+            splits = [(k_, frac, "transparent")]
+            try:
+                evals += 2
+                r = check_split(sc, False, splits)
+            except AssertionError:
+                continue
+            if r is not None:
+                findings.setdefault("passive:split:weak", Finding("passive:split:weak", f"cutting layer {k_} of a hardly scattering L-band pack at {frac} "
+                                                                  f"changes the result by {r[0]:.3g}", {"scene": sc, "active": False, "splits": splits}, r[0], r[1]))
+                break
     for it in range(6 if effort == "routine" else 60):
         em, ms = pC01.PAIRINGS[it % (2 if effort == "routine" else len(pC01.PAIRINGS))]
         active = it % 3 == 2 and em != "nonscattering"
